@@ -39,6 +39,9 @@ pub struct Ctx {
     seq: u64,
     /// running hash of the plaintext-level event log
     pub digest: u64,
+    /// set when the course of the case depends on the one source of nondeterminism inside the client that no seam owns
+    /// (the iteration order of `mcs::Client`'s channel HashMap): the determinism proof then compares the tape only
+    pub order_dependent: bool,
     /// running hash of the (op, size-bucket) schedule shape
     pub shape: u64,
     /// key describing (fault kind, site, value class, config) for distinct counting
@@ -83,6 +86,7 @@ impl Ctx {
             log_enabled: false,
             seq: 0,
             digest: 0x1234_5678_9abc_def0,
+            order_dependent: false,
             shape: 0,
             key: 0,
             nontrivial: false,
